@@ -82,7 +82,7 @@ func lastGuardIsConstructionCheck(w *World, in ssa.Instruction) bool {
 		}
 		panics := false
 		for _, x := range other.Instrs {
-			if _, isP := x.(*ssa.Panic); isP {
+			if isPanicLike(x) {
 				panics = true
 			}
 		}
@@ -426,7 +426,7 @@ func cbmRegister(c *Ctx, id string) {
 	c.Check(ok, id, "cbm:register", fn.Pos(), fmt.Sprintf("index entry, update | →create→update, panic on any remaining error %q", seqs), fmt.Sprintf("the registration does not follow index → update | update(key not found) → create → update, with a panic on every remaining error: %q", seqs))
 	// every panic is under a non-nil error
 	allInstrs(fn, func(in ssa.Instruction) {
-		if _, isP := in.(*ssa.Panic); isP {
+		if isPanicLike(in) {
 			c.Check(errNonNilGuard(in.Block()), id, "cbm:register-panic@"+w.pos(in.Pos()), in.Pos(), "the panic is under a failed step", "a panic of the registration is not under a failed step")
 		}
 	})
